@@ -132,7 +132,9 @@ def decoder():
                     res.extend(byte)
                     byte = yield
                     res.extend(byte)
-                    byte = yield res.decode("ascii")
+                    # Note: decode as latin-1, such that a damaged byte
+                    # fails the checksum, instead of raising here.
+                    byte = yield res.decode("latin-1")
                     break
         elif byte in (b"+", b"-"):
             byte = yield byte.decode("ascii")
